@@ -41,6 +41,9 @@ Inductive dpc :=
 | DSend (j : nat)       (* old only: worker spawned, about to call the blocking send    *)
 | DSendWait (j : nat)   (* old only: blocked in send, f offered to the channel          *)
 | DRejected (j : nat)   (* dispatch returned Err(DispatchError(f))                      *)
+| DFailed (j : nat)     (* thread::spawn panicked ("failed to spawn thread"): dispatch unwinds
+                           to the submitter, the closure j is destroyed with the unwinding,
+                           the CounterGuard inside it has given the slot back               *)
 | DPanicked.            (* thread_limit = 0: panic!("the thread pool is needed ...")    *)
 
 (* program counter of a pool worker thread *)
@@ -81,6 +84,7 @@ Inductive ev :=
 | ECheckFail (d : nat)         (* counter >= limit: Err(DispatchError(f)), the same f               *)
 | ENoPool (d : nat)            (* thread_limit = 0: panic                                          *)
 | ESpawn (d : nat)             (* thread::spawn(worker(..))                                        *)
+| ESpawnFail (d : nat)         (* the OS refuses the thread (EAGAIN/ENOMEM): thread::spawn panics   *)
 | ERetry (d : nat)             (* push_blocking: closure = e.0; yield_now(); dispatch(closure)      *)
 | ESendNow (d w : nat)         (* old: blocking send meets worker w blocked in recv                *)
 | ESendBlock (d : nat)         (* old: blocking send finds no receiver and waits                   *)
@@ -223,6 +227,17 @@ Definition step (s : st) (e : ev) : option st :=
     | Some (DSpawn j) => Some (add_worker (set_d s d DIdle) (WRun j))
     | _ => None
     end
+  | ESpawnFail d =>
+    (* environment label: the closure `worker(receiver, guard, timeout, f)` is dropped by the
+       failing spawn: guard -> fetch_sub, f destroyed; the panic leaves dispatch *)
+    match nth_error (disp s) d with
+    | Some (DSpawn j) =>
+      match counter s with
+      | S c => Some (set_counter (set_d s d (DFailed j)) c)
+      | O => None
+      end
+    | _ => None
+    end
   | ERecvEnter w =>
     match nth_error (work s) w with
     | Some WLoop => Some (set_w s w WRecv)
@@ -297,7 +312,7 @@ Definition b2n (b : bool) : nat := if b then 1 else 0.
 (* the closure of job j is in the hands of this thread *)
 Definition hd (j : nat) (p : dpc) : nat :=
   match p with
-  | DTry k | DFull k | DSpawn k | DSend k | DSendWait k | DRejected k => b2n (k =? j)
+  | DTry k | DFull k | DSpawn k | DSend k | DSendWait k | DRejected k | DFailed k => b2n (k =? j)
   | DIdle | DPanicked => 0
   end.
 Definition hw (j : nat) (p : wpc) : nat :=
